@@ -249,7 +249,9 @@ def make_source(case):
     if fl.startswith("path_"):
         TMP.mkdir(exist_ok=True)
         yaml = fl.endswith("yaml")
-        p = TMP / f"cfg_{os.getpid()}_{case.get('id', 0)}.{'yaml' if yaml else 'json'}"
+        # ONE path per format for the whole run: the file is rewritten with the next configuration and read again
+        # (an edited configuration file reloaded by the same process must be read anew)
+        p = TMP / f"cfg_{os.getpid()}.{'yaml' if yaml else 'json'}"
         p.write_text(yaml_text(d) if yaml else json.dumps(d))
         src = str(p) if fl.startswith("path_str") else Path(p)
         return src, p.unlink, None
